@@ -264,13 +264,17 @@ VisApplies(q, k) == NObj(q) = 2 /\ k = 2 /\ Obj(q, 2).vis # "none" /\ Obj(q, 1).
 VisIdeal(q, k, p) ==
   IF ~VisApplies(q, k) THEN TRUE
   ELSE Dist2(PosOf(Obj(q, 2), p), Obj(q, 1).pos) <= Sq(Obj(q, 1).vd + RadUp(Obj(q, 2)) + OffNorm(Obj(q, 2)))
-\* deviation VisBufferLost: the voxel dilation of the view region never leaves the grid of
-\* the undilated region, so nothing beyond the view distance itself is kept (modelled from
-\* below: a quarter unit inside the view sphere)
+\* deviation VisBufferRelativePitch: _bufferOverapproximate computes the number of dilation
+\* passes from the RELATIVE pitch (ceil(buffer / 0.15) + 1) while one pass dilates by the
+\* absolute pitch 0.15 * (largest extent of the view region); when that extent is below one
+\* unit (view distance < 1/2) the view region is dilated by less than the object's radius.
+\* Modelled from below: nothing beyond the view sphere itself is guaranteed to be kept.
+\* (Until the fix of VoxelRegion.dilation -- which dilated inside the undilated grid -- the
+\* same model applied to every view distance: known finding visibility-buffer-not-dilated.)
 VisAsImpl(q, k, p) ==
   IF ~VisApplies(q, k) THEN TRUE
   ELSE Obj(q, 1).vd > 1 /\ Dist2(PosOf(Obj(q, 2), p), Obj(q, 1).pos) <= Sq(Obj(q, 1).vd - 1)
-TrigVisbuf(q, k) == VisApplies(q, k)
+TrigVisbuf(q, k) == VisApplies(q, k) /\ 2 * Obj(q, 1).vd < 4
 
 \* bound extraction refuses a program ("absolute value cannot be negative") although it is
 \* satisfiable: through a != read as <=, or through a condition that is not a requirement
